@@ -70,7 +70,7 @@ func (x *Exec) inlinableLoops(callee *ssa.Function, loopsOK bool) bool {
 		}
 		for _, in := range b.Instrs {
 			switch in := in.(type) {
-			case *ssa.Defer, *ssa.RunDefers, *ssa.Go, *ssa.Select, *ssa.Send, *ssa.Range, *ssa.Next:
+			case *ssa.Defer, *ssa.RunDefers, *ssa.Go, *ssa.Range, *ssa.Next:
 				return false
 			case *ssa.MakeClosure:
 				// a method value (x.m) is fine: it binds only its receiver; a function
